@@ -67,7 +67,7 @@ class PairDomain(Domain):
         st.data.update(inE={}, inC={}, bind={}, issues=[], rowloops={},
                        deindexed={}, rows_gone=set(), emptied=[], created=[],
                        ops=0, itercount={}, rowknown={}, idxknown={},
-                       summary_calls=[], conds=[], rowdrops=[])
+                       summary_calls=[], conds=[], rowdrops=[], cdrops=[])
 
     # ---- facts -----------------------------------------------------------
     def _val(self, st, table, e, T):
@@ -353,6 +353,7 @@ class PairDomain(Domain):
                             f'the index entry of type {T} is deleted without '
                             'a test that it is empty: the other owners of '
                             'that type disappear from get(T)', fn)
+            st.data['cdrops'].append(st.versions.get(C, 0) + 1)
             st.data['ops'] += 1
 
     def _call(self, st, ev):
@@ -369,6 +370,19 @@ class PairDomain(Domain):
             if b == C and len(keys) == 1 and args:
                 T = norm(keys[0])
                 if m == 'add':
+                    vers = [v for f_, v in (set(ev.sym.stamp)
+                                            | set(ev.sym.binds)) if f_ == C]
+                    tv = min(vers) if vers else st.versions.get(C, 0)
+                    if any(ver > tv for ver in st.data['cdrops']):
+                        self._issue(st, 'atomic', ev.node,
+                                    f'the entity is added through a '
+                                    f'reference to the owner set of {T} that '
+                                    'was taken before a call which may have '
+                                    'freed that index entry: it lands in an '
+                                    'orphaned set - get(T) no longer lists '
+                                    'the component that get_component still '
+                                    'finds, and removing it raises KeyError',
+                                    fn)
                     self._set(st, 'inC', args[0], T, True)
                     return
                 if m in ('discard', 'remove'):
@@ -446,6 +460,8 @@ class PairDomain(Domain):
                 live.append(ex)
         pairs = {}
         gone = None
+        if any(ex.get('cslot_gone') for ex in live):
+            st.data['cdrops'].append(st.versions.get(C, 0) + 1)
         for ex in live:
             for x in ex['rows_gone']:
                 st.data['rowdrops'].append((st.versions.get(E, 0) + 1,
@@ -591,7 +607,8 @@ def analyse_writers(program, rep, only=None, prefix='C01'):
                 final[k] = tuple('same' if isinstance(v, Var) and v.initial
                                  else v for v in (ve, vc))
             summ.exits.append({'entry': entry, 'final': final,
-                               'rows_gone': set(st.data['rows_gone'])})
+                               'rows_gone': set(st.data['rows_gone']),
+                               'cslot_gone': bool(st.data['cdrops'])})
             if st.data['ops'] or st.data['issues']:
                 exit_check(dom, st, results_m, m.qualname)
         private = m.name.startswith('_') and not m.name.startswith('__')
@@ -989,3 +1006,10 @@ def run(program, rep, tier):
     analyse_writers(program, rep)
     check_readers(program, rep)
     check_fresh_id(program, rep)
+    # "exactly one pair per attached component": the subclass walk behind
+    # get(T) visits each type once (C06's rule for the walk of get)
+    from rules import c06
+    rep.borrow(c06.run, program, rep, 'quick',
+               keep=lambda o: o.rule in ('C06.once', 'C06.cover'),
+               rename=lambda r: 'C01.' + r.split('.')[1],
+               why='get(T) lists a pair twice')
